@@ -35,6 +35,7 @@
 #include <xercesc/util/StringPool.hpp>
 #include <xercesc/util/XMLInitializer.hpp>
 #include <xercesc/util/OutOfMemoryException.hpp>
+#include <xercesc/util/XercesVerif.hpp>
 
 namespace XERCES_CPP_NAMESPACE {
 
@@ -118,12 +119,14 @@ RangeToken* RangeTokenMap::getRange(const XMLCh* const keyword,
     if (!fTokenRegistry->containsKey(keyword))
         return 0;
 
+    XERCES_VERIF_YIELD("RangeTokenMap::getRange");
     RangeTokenElemMap* elemMap = fTokenRegistry->get(keyword);
     RangeToken* rangeTok = elemMap->getRangeToken(complement);
 
     if (!rangeTok)
     {
         XMLMutexLock lockInit(&fMutex);
+        XERCES_VERIF_ACCESS("RangeTokenMap.registry", this, &fMutex, 1);
 
         // make sure that it was not created while we were locked
         rangeTok = elemMap->getRangeToken(complement);
@@ -145,8 +148,10 @@ RangeToken* RangeTokenMap::getRange(const XMLCh* const keyword,
                     rangeTok = elemMap->getRangeToken();
                     if (rangeTok)
                     {
+                        XERCES_VERIF_INIT_BEGIN("RangeTokenMap.complement", elemMap, &fMutex);
                         rangeTok = RangeToken::complementRanges(rangeTok, fTokenFactory, fTokenRegistry->getMemoryManager());
                         elemMap->setRangeToken(rangeTok , complement);
+                        XERCES_VERIF_INIT_END("RangeTokenMap.complement", elemMap, &fMutex);
                     }
                 }
             }
